@@ -1313,6 +1313,45 @@ def run(index, rep, tier):
         rep.check(bool(ntax_checks), "R20.16", pms.qualname, "number of rows never compared with the declared NTAX", fn_where(pms), "the number of rows read is compared with NTAX",
                   "NexusReader._parse_matrix_statement (with the two _process_*_matrix_data routines) never compares the number of rows it read with the declared NTAX: `dimensions ntax=2 nchar=4; matrix a ACGT ;` - or any document cut after a complete row - is returned as a one-row matrix that contradicts its own DIMENSIONS statement")
 
+    # ---- R20.17 an unfinished tree statement is always an error
+    with rep.section("R20.17"):
+        rep.rule("R20.17", "an unfinished tree statement is always an error: in NewickReader._parse_tree_statement no path from the node-description call to a normal return exists on which _tree_statement_complete is false - the refusal does not depend on any reader option (the node parser stops at a stray `)` or `,` without consuming it, and a caller that gets a tree back asks for the next one from the same token for ever)")
+        ts = index.function("dendropy.dataio.newickreader.NewickReader._parse_tree_statement")
+        g = cfg_of(ts)
+        starts = [n for n in g.nodes if any(call_name(c) == "_parse_tree_node_description" for c in node_calls(n))]
+        if not starts or not any(isinstance(x, ast.Attribute) and x.attr == "_tree_statement_complete" and isinstance(x.ctx, ast.Load) for x in ast.walk(ts.node)):
+            raise AnalysisError("R20.17: _parse_tree_statement no longer calls _parse_tree_node_description / tests _tree_statement_complete")
+
+        def incomplete_only(s, l, d):
+            return not (s.kind == "test" and isinstance(s.ast, ast.Attribute) and s.ast.attr == "_tree_statement_complete" and l == "t")
+
+        for s0 in starts:
+            w = g.can_reach(s0, lambda n: n is g.exit, avoid=lambda n: n.kind == "raise" or isinstance(n.ast, ast.Raise), follow_exc=False, edge_ok=incomplete_only)
+            rep.check(w is None, "R20.17", ts.qualname, "an unfinished statement can be returned as a tree", fn_where(ts, s0.ast), "_parse_tree_statement: every return after the node description has seen the statement complete",
+                      "NewickReader._parse_tree_statement can return normally although `_tree_statement_complete` is false (the refusal is conditional on something else): the node parser returns at an unmatched `)` or `,` WITHOUT consuming it, so the reader hands back a tree and is asked for the next one while still standing on the same token - tree_iter / read never terminate and allocate one empty tree per round")
+
+    # ---- R20.18 rows are looked up by position only in a full namespace
+    with rep.section("R20.18"):
+        rep.rule("R20.18", "rows are looked up by position only in a full namespace: PhylipReader._parse_interleaved switches to paged mode (taxon_namespace[row]) only on the true branch of a test that compares the number of taxa actually in the namespace with NTAX - counting lines instead lets a repeated label leave the namespace short, and the positional look-up of the next page raises IndexError from inside the library")
+        pi_ = index.function("dendropy.dataio.phylipreader.PhylipReader._parse_interleaved")
+        g = cfg_of(pi_)
+        sets = [n for n in g.nodes if isinstance(n.ast, ast.Assign) and any(isinstance(t, ast.Name) and t.id == "paged" for t in n.ast.targets) and isinstance(n.ast.value, ast.Constant) and n.ast.value.value is True]
+        subs = [x for x in ast.walk(pi_.node) if isinstance(x, ast.Subscript) and isinstance(x.value, ast.Attribute) and x.value.attr == "taxon_namespace" and not isinstance(x.slice, ast.Constant)]
+        if not sets or not subs:
+            raise AnalysisError("R20.18: the paged mode of _parse_interleaved (paged = True / taxon_namespace[row]) was not recognised")
+
+        def not_full(s, l, d):
+            if s.kind == "test" and isinstance(s.ast, ast.Compare) and len(s.ast.ops) == 1 and l == "t":
+                a, b = norm(s.ast.left), norm(s.ast.comparators[0])
+                for x, y in ((a, b), (b, a)):
+                    if x.startswith("len(") and "taxon_namespace" in x and "ntax" in y.lower() and isinstance(s.ast.ops[0], (ast.Eq, ast.GtE) if x == a else (ast.Eq, ast.LtE)):
+                        return False
+            return True
+        seen = g.reach([g.entry], follow_exc=False, edge_ok=not_full)
+        for n in sets:
+            rep.check(n not in seen, "R20.18", pi_.qualname, "paged mode entered without the namespace being full", fn_where(pi_, n.ast), "_parse_interleaved: paged = True only when len(taxon_namespace) == ntax",
+                      "PhylipReader._parse_interleaved sets `paged = True` on a path that has not established that the namespace holds NTAX taxa: rows of the following pages are looked up as `taxon_namespace[row]`, and when the first page repeated a label the namespace is shorter than NTAX - the look-up raises IndexError instead of the reader's own parse error")
+
 
 def _branch_calls_raiser(cfg, n):
     for lab, t in n.succ:
